@@ -325,8 +325,8 @@ pub const RULES: &[(&str, &str)] = &[
   ("C01", "scenario = generated chain + transparent schedule; non-trivial = at least one sat range was split across outputs and spends were served both from the in-memory cache and from the table; distinct = distinct (schedule+config digest, final index digest)"),
   ("C02", "non-trivial = at least one range split and the partition/lookups were audited at two or more heights; distinct by (schedule+config digest, final index digest)"),
   ("C03", "non-trivial = at least two inscriptions exist and at least one output was spent after creation; distinct by (schedule+config digest, final index digest)"),
-  ("C04", "non-trivial = at least two inscriptions exist; distinct by (schedule+config digest, final index digest)"),
-  ("C05", "non-trivial = at least three inscriptions exist; distinct by (schedule+config digest, final index digest)"),
+  ("C04", "a quarter of the update calls are raced by a second Index::update that wins the write lock after a mid-batch commit, a sixth of the chains activate inscriptions above genesis while carrying envelopes from the start; non-trivial = at least two inscriptions exist; distinct by (schedule+config digest, final index digest)"),
+  ("C05", "a quarter of the update calls are raced by a second Index::update that wins the write lock after a mid-batch commit, a sixth of the chains activate inscriptions above genesis while carrying envelopes from the start; non-trivial = at least three inscriptions exist; distinct by (schedule+config digest, final index digest)"),
   ("C06", "non-trivial = at least two inscriptions exist; distinct by (schedule+config digest, final index digest)"),
   ("C07", "non-trivial = at least two inscriptions exist; distinct by (schedule+config digest, final index digest)"),
   ("C08", "non-trivial = at least one rune exists and at least one output holds runes; distinct by (schedule+config digest, final index digest)"),
@@ -519,7 +519,7 @@ pub fn run(property: &str, sc: &Scenario) -> RunReport {
 
 pub fn rule_for(property: &str) -> String {
   match property {
-    "C12" => "scenario = generated chain indexed twice: reference (one update, commit interval 5000, prefetch 31 ahead, no reopen) and subject (generated commit interval, update partition incl. height limits, reopen points, lag, batch cuts, cache size, transient F/T errors); masked dumps compared at the tip and at one intermediate checkpoint; non-trivial = at least two update calls and three transactions; distinct by (schedule+config digest, final index digest)".into(),
+    "C12" => "scenario = generated chain indexed twice: reference (one update, commit interval 5000, prefetch 31 ahead, no reopen) and subject (generated commit interval, update partition incl. height limits, reopen points, lag, batch cuts, cache size, transient F/T errors, and in a quarter of the update calls a second Index::update that wins the write lock right after a mid-batch commit); masked dumps compared at the tip and at one intermediate checkpoint; non-trivial = at least two update calls and three transactions; distinct by (schedule+config digest, final index digest)".into(),
     "C15" => "scenario = generated chain indexed under one of the seven reduced combinations of {sats, addresses, transactions} with a generated transparent schedule, compared by projection with the all-indexes twin; non-trivial = at least one inscription or rune exists and, when neither sats nor addresses are indexed, at least one spent output was fetched from the node; distinct by (schedule+config digest, final index digest)".into(),
     "C13" => "scenario = generated history (commit interval 1..6, savepoint interval 1..5, max savepoints 1..3) with ONE disk fault placed after a fault-free probe of the same history: crash at a disk operation (uniform, first operation after a sync, or the sync itself), crash at a named point on the commit / savepoint path, EIO, or ENOSPC; recovery image clean / torn / all-written; non-trivial = the fault actually fired and both oracles (state after restart = uninterrupted index of a committed height within [last acknowledged, in flight]; resumed tip = uninterrupted tip) were evaluated; every fourth history instead ends with a reorganisation (mostly within the depth the savepoints can undo) and the fault lands in the update that rolls it back (named points reorg.before / reorg.restored / reorg.after, the first 40 disk operations, or uniform): state after restart = uninterrupted index of that height on the abandoned or on the new chain, resumed result = from-scratch index of the new best chain (or the reorganisation is reported unrecoverable); distinct by (history+fault placement digest, final index digest)".into(),
     "C14" => "scenario = generated history with savepoint interval 1..12, max savepoints 1..4: growth, partial indexing (index far behind the tip), reorganisations of depth 1..30 (biased to the recoverable boundary) between updates and at named points inside updates (before/after each commit, between the savepoint transactions), consecutive reorganisations, prefetch lag 0..31; then up to three updates on the quiet node; allowed outcomes: Ok with masked dump equal to a from-scratch index of the final best chain, or Unrecoverable with the status flag; non-trivial = at least one reorganisation happened and ord either rolled back at least once or reported unrecoverable; distinct by (history digest, final index digest)".into(),
